@@ -111,6 +111,14 @@ def check(rep, an, tier):
                       construct="equal_l1norm_constraint → cp.diff(cp.sum(X, axis=1)) == 0", entry=entry, config=res.config,
                       msg="no equality constraint on the layer totals is built although equal L1 was requested")
             for ev in eq:
+                # what is equated are the layer TOTALS themselves: the argument of the difference depends on nothing but the variable
+                # (a per-layer scale — e.g. 1 / number of unmasked sources — equates means, not totals)
+                cd = {o.split("|")[0] for o in R.closure_deps(res, ev.d["val"])} - {"n_layers", "equal_l1norm_constraint"}
+                rep.check("R-FLOW", "the equal-L1 equality equates the layer totals themselves", not (cd & {"mask", "lb", "ub", "A", "B"}), where=ev.loc,
+                          construct=ev.text()[:80], entry=entry, config=res.config,
+                          msg=f"the quantity whose layer-to-layer difference is set to zero is scaled / shifted by something computed from "
+                              f"{sorted(cd & {'mask', 'lb', 'ub', 'A', 'B'})}: with rows of the mask that allow different numbers of sources the layers get "
+                              f"equal MEAN intensities over their active sources, not equal totals")
                 bad = [g[0] for g in ev.guards if len(g) > 4 and not g[3] and ("mask" in g[4])]
                 rep.check("R-FLOW", "equal-L1 equality independent of the mask", not bad, where=ev.loc, construct=ev.text(),
                           entry=entry, config=res.config,
@@ -232,6 +240,18 @@ def alternation(rep, res, entry, xprobs, pprobs, xvars, pvars, cfg):
     rep.check("R-TYPESTATE", "alternation: solve X → hand X over → solve P → hand P over", ok, where=one[0][2].loc if one else res.fn.loc(),
               construct="body of the alternation loop", entry=entry, config=res.config,
               msg=f"order found in the loop body: {pat}")
+    # the loop is left (convergence `break`) only AFTER the new P was handed over: the X refit that follows the loop is solved against the
+    # P that is returned
+    evs_ = [e_ for e_ in res.trace.events if e_.loops and e_.loops[-1] == loop]
+    stP = [e_ for k_, w_, e_ in one if (k_, w_) == ("store", "P")]
+    slP = [e_ for k_, w_, e_ in one if (k_, w_) == ("solve", "P")]
+    if stP and slP:
+        i_solve, i_store = evs_.index(slP[0]), evs_.index(stP[0])
+        early = [e_ for e_ in evs_[i_solve:i_store] if e_.kind == "break"]
+        rep.check("R-TYPESTATE", "the loop is left only after the new P was handed over", not early, where=(early[0].loc if early else stP[0].loc),
+                  construct=(early[0].text() if early else stP[0].text())[:80], entry=entry, config=res.config,
+                  msg="a `break` of the alternation loop lies between the P solve and the hand-over `Ppar.value = P`: when the loop converges the "
+                      "final X refit is solved against the PREVIOUS P while the newest P is returned — the returned X is not optimal for the returned P")
     # the parameter that receives X must belong to a P problem and vice versa
     I = R._FakeI(res)
     for kind, who, ev in one:
